@@ -13,7 +13,8 @@ ID = "C04"
 LEVEL = "exploration"
 RULE = ("a case is (scheme, configuration, database SHAPE drawn by Hypothesis: 2..10 keywords, list lengths 1..12, which pool "
         "identifiers sit under which keyword incl. one identifier under every keyword; database CONTENT from a seeded DRBG: "
-        "keywords of 10..24 random bytes, identifiers of 8..20 random bytes). Two setups under one key and one under a second "
+        "keywords of 8..24 random bytes, identifiers of 8..20 random bytes; SSE-1/2 keyword fields up to 128 bytes; some builds perform "
+        "exactly 256 encryptions). Two setups under one key with one scheme object, one with a brand-new scheme instance, one under a second "
         "key. Oracles: (a) no keyword and (except SSE-2) no identifier is a substring of EDB.serialize() or of any token "
         "(asserted only while the chance of an accidental hit is < 1e-15); (b) all 16-byte blocks of all ciphertext-bearing "
         "entries of one index are pairwise distinct; (c) those block sets of two indexes of the same (key, DB) are disjoint; "
